@@ -288,7 +288,7 @@ class STV(RankingElection):
         # catches the possibility that we exhaust all ballots
         # without candidates reaching threshold
         elif len(profile.candidates) == self.m - len(
-            [c for s in self.get_elected() for c in s]
+            [c for s in self.get_elected(prev_state.round_number) for c in s]
         ):
             elected = prev_state.remaining
             eliminated = (frozenset(),)
